@@ -541,5 +541,29 @@ def rule_epoch_arith(ctx):
     except Unknown as ex:
         raise AnalysisError("EPOCH-ARITH: %s" % ex)
     r.functions |= it.funcs
+    # the comparisons of Epoch values in pin (re-validation) and try_advance (pinned in another epoch?) are `==`/`!=` on
+    # Epoch: they mean what the rules take them to mean only if Epoch's PartialEq is the field-wise one (pin bit included)
+    from .sym import Exec as _Exec, strip as _strip, subterms as _subterms
+    eqimpls = [x for x in prog.items["impls"] if x.get("self_adt") == "ebr_impl::epoch::Epoch" and x.get("trait") == "std::cmp::PartialEq"]
+    eqb = prog.bodies.get("<ebr_impl::epoch::Epoch as std::cmp::PartialEq>::eq")
+    okq = len(eqimpls) == 1 and eqb is not None
+    if okq:
+        ps_ = [p for p in _Exec(prog).paths(eqb) if p.exit[0] == "return"]
+        okq = len(ps_) == 1
+        if okq:
+            rt = _strip(ps_[0].ret)
+
+            def _is_data(t, k):
+                t = _strip(t)
+                while isinstance(t, tuple) and t[0] in ("load", "deref"):
+                    t = _strip(t[1])
+                return isinstance(t, tuple) and t[0] == "field" and str(t[1]).split(".")[-1] == "data" and \
+                    any(y == ("arg", k, eqb.local_name(k)) for y in [_strip(t[2])] + list(_subterms(t[2])))
+            okq = isinstance(rt, tuple) and rt[0] == "bin" and rt[1] == "Eq" and \
+                ((_is_data(rt[2], 1) and _is_data(rt[3], 2)) or (_is_data(rt[2], 2) and _is_data(rt[3], 1)))
+    r.instance("Epoch == Epoch is equality of the whole word (pin bit included)", okq)
+    if not okq:
+        r.violate(E + "eq", "eq", "Epoch's PartialEq is not the field-wise equality of `data`: `==`/`!=` between epochs (pin's "
+                  "re-validation, try_advance's `pinned in another epoch?`) no longer compare what the protocol compares", loc)
     r.require(len(r.instances), 12, "epoch arithmetic obligations")
     return r
